@@ -245,10 +245,11 @@ NS = {"p": "urn:verif:p", "q": "urn:verif:q", "x": "http://verif.example/x"}
 ALIASES = {"p": ["p", "pt", "parts"], "q": ["q", "qq"], "x": ["x", "xh"]}
 
 
-def ns_pair(r, max_nodes=12):
+def ns_pair(r, max_nodes=12, second_alias=False):
     """Namespaced documents of the C01 domain: every prefix declared once on the root, one
-    prefix per URI, no default namespace, no reserved ns<digits> prefixes.  The right root
-    may declare prefixes the left root lacks (InsertNamespace) and vice versa."""
+    prefix per URI (with `second_alias`: sometimes a second prefix for one URI on the right root,
+    declared before or after the first), no default namespace, no reserved ns<digits> prefixes.
+    The right root may declare prefixes the left root lacks (InsertNamespace) and vice versa."""
     lp = r.sample(sorted(NS), r.randint(1, 3))
     rp = r.sample(sorted(NS), r.randint(1, 3))
     if r.random() < 0.5:
@@ -289,6 +290,15 @@ def ns_pair(r, max_nodes=12):
         alias_r = {p: r.choice(ALIASES[p]) for p in NS}
     L.nsmap = {alias[p]: NS[p] for p in lp}
     R.nsmap = {alias_r[p]: NS[p] for p in rp}
+    if second_alias and r.random() < 0.4:
+        p2 = r.choice(rp)
+        spare = [a for a in ALIASES[p2] if a != alias_r[p2] and a not in L.nsmap and a not in R.nsmap]
+        if spare:
+            extra = r.choice(spare)
+            items = list(R.nsmap.items())
+            i = [k for k, _ in items].index(alias_r[p2])
+            items.insert(i if r.random() < 0.5 else i + 1, (extra, NS[p2]))
+            R.nsmap = dict(items)
     L.tail = None
     R.tail = None
     return L.number(0), R.number(1000)
